@@ -648,6 +648,32 @@ def wave8_rules(ctx):
                         bad.append("%s: `%s`" % (g.name, sir.expr_str(n["args"][0])[:40]))
         obs.append(ob("C14.escape/sinks/expr-tokens", not bad and n_ >= 20, ctx.where(f), "%d tokens written by the expression printer are constants, literal-writer output or validated identifiers" % n_ if not bad else "written as a token without going through a literal writer: %s" % bad[:3],
                       witness=None if not bad else "a['0'] is printed as a.0, which does not parse back"))
+    # a static piece of mixed text that is followed by a binding does not end in a raw `{` (it would join the binding's `{{`)
+    vp = [g for g in tc.fns if g.base == "Value" and g.name == "stringify_write" and g.body]
+    if vp:
+        g = vp[0]
+        nodes = list(sir.walk(g.node, into_items=True))
+        tests = [n for n in nodes if n.get("k") == "mcall" and n["m"] in ("strip_suffix", "ends_with") and n["args"] and sir.strip_ref(n["args"][0]).get("v") == "{"]
+        lits = [n["v"] for n in nodes if n.get("k") == "lit" and n.get("t") == "str" and re.search(r"&#(123|x7[bB]);", n["v"])]
+        ok = bool(tests) and bool(lits)
+        obs.append(ob("C14.escape/binding-open/trailing", ok, ctx.where(g), "a static piece followed by a binding has its trailing `{` written as an entity: %s" % ok,
+                      witness=None if ok else "&#123;{{a}} is printed as {{{a}}, which reads back as a binding of the object literal {a}"))
+    # an integer literal used as the object of `.name` is parenthesised (`1.a` is a float followed by a name)
+    if fs:
+        from exprmodel import ExprModel, arm_table
+        import prectables as pt
+        model = ExprModel(tc)
+        gpr = pt.main_expression_fn(tc, model, "stringify")
+        if gpr is not None:
+            prf, pm_, _n = gpr
+            table = arm_table(pm_, model)
+            if "StaticMember" in table:
+                arm, _c = table["StaticMember"][0]
+                tests_int = any(x.get("k") in ("p_struct", "p_ts", "p_path") and x["segs"][-1] == "LitInt" for x in sir.walk(arm["body"]))
+                parens = any(x.get("k") == "lit" and x.get("v") == "(" for x in sir.walk(arm["body"]))
+                ok = tests_int and parens
+                obs.append(ob("C14.prec/printer/StaticMember/int-object", ok, ctx.where(prf), "an integer literal in front of `.name` is parenthesised: %s" % ok,
+                              witness=None if ok else "{{ (1).a }} is printed as {{1.a}}, which does not read back"))
     # numbers are spelled by the float writer only (no integer casts in the printer)
     casts = []
     for f in tc.fns:
